@@ -23,6 +23,10 @@ fn new_mapping(len: usize) -> MmapRegion<()> {
     }
 }
 
+thread_local! {
+    static SHARED_FILE: std::cell::RefCell<Option<Arc<std::fs::File>>> = const { std::cell::RefCell::new(None) };
+}
+
 fn pat(id: u32, ver: u32, i: usize) -> u8 {
     ((id as usize).wrapping_mul(37) ^ (ver as usize).wrapping_mul(101) ^ i.wrapping_mul(13).wrapping_add(i >> 8)) as u8
 }
@@ -52,6 +56,19 @@ impl World {
     fn make_region(&mut self, start: u64, len: u64) -> Option<(Arc<GuestRegionMmap<()>>, Reg)> {
         let id = self.next_id;
         self.next_id += 1;
+        // one region in three is a private mapping of ONE shared file descriptor, at offsets whose
+        // file ranges may coincide or intersect (e.g. an image mirrored at two guest addresses):
+        // only guest address ranges decide whether a set of regions is a valid map
+        #[cfg(not(feature = "xen"))]
+        let m = if !cfg!(miri) && id % 3 == 0 && len <= (1 << 20) {
+            let f = SHARED_FILE.with(|c| c.borrow_mut().get_or_insert_with(|| Arc::new(crate::models::world::temp_file(2 << 20))).clone());
+            let off = 4096 * ((id as u64 / 3) % 4);
+            out::count("regions_backed_by_the_shared_descriptor", 1);
+            MmapRegion::<()>::build(Some(vm_memory::FileOffset::from_arc(f, off)), len as usize, libc::PROT_READ | libc::PROT_WRITE, libc::MAP_PRIVATE | libc::MAP_NORESERVE).expect("file mapping")
+        } else {
+            new_mapping(len as usize)
+        };
+        #[cfg(feature = "xen")]
         let m = new_mapping(len as usize);
         let p = m.as_ptr();
         let bytes: Vec<u8> = (0..len as usize).map(|i| pat(id, 0, i)).collect();
